@@ -1,6 +1,7 @@
 # Pylint does not work with dynamically generated types, which @operator does
 # pylint: disable=isinstance-second-argument-not-valid-type
 
+import re
 import struct
 
 from .architecture import instruction_opcodes
@@ -215,6 +216,13 @@ class FP11RMOperandStub(RegisterModeOperandStub):
         return super().encode(operand, state)
 
 
+def syntax_of(operand):
+    # The source text of an operand without what is merely quoted in it: the
+    # characters of 'c and "cc literals, and comments inside an operand that
+    # spans several lines
+    return re.sub(r"'.|\"..|;[^\n]*", "", operand.text())
+
+
 class OffsetOperandStub:
     def __init__(self, pattern_char, bit_indexes, unsigned):
         self.pattern_char = pattern_char
@@ -227,11 +235,7 @@ class OffsetOperandStub:
 
         if isinstance(operand, Number) and operand.is_valid_label:
             operand = Symbol(operand.ctx_start, operand.ctx_end, operand.representation, is_necessarily_label=True)
-        elif "(" not in operand.text() and ":" not in operand.text():
-            # TODO: the condition of this if being '"(" not in operand.text()'
-            # may not work for multiline expressions, e.g.
-            #   clr @#1 +  ; comment here (abacaba)
-            #   b
+        elif "(" not in syntax_of(operand) and ":" not in syntax_of(operand):
             fixup_active = True
             def fixup_label(token):
                 nonlocal fixup_active
